@@ -1,2 +1,197 @@
+"""Local complete enumerations inside a sampled session (fault_enumeration):
+kill_sweep (C04): every kill position x kill kind of the reached tree;
+mux_patterns (C05): all 2^n live/dead patterns of the mux inputs.
+
+The enumerated edits are derived from the current reference model only (no
+PRNG), so a recorded session replays them identically."""
+import copy
+import itertools
+
+from .spec import LIST_PHASE_KINDS, LOADS
+from .session import Stop
+
+
+def _edit(sess, op):
+    sess.apply_edit(op)
+    return sess.outcomes[-1] == "ok"
+
+
+def _observe(sess, kw, tag):
+    from .analyses import apply_observe
+
+    op = {"op": "observe", "ta": 25.0, "sh": 1, "kw": dict(kw), "roundtrip": False}
+    apply_observe(sess, op)
+    sess.outcomes.pop()
+
+
+def _ensure_phases(sess):
+    m = sess.model
+    if not m.sys_phases:
+        _edit(sess, {"op": "set_sys_phases", "phases": {"pa": 10.0, "pb": 1.0}})
+    return list(sess.model.sys_phases.keys())
+
+
+def _restore_comp(sess, name, spec, group, rail, conf):
+    _edit(sess, {"op": "change_comp", "name": name, "comp": copy.deepcopy(spec), "group": group, "rail": rail})
+    if conf:
+        _edit(sess, {"op": "set_comp_phases", "name": name, "conf": copy.deepcopy(conf)})
+
+
+def _levels_below(m, n):
+    best = 0
+    todo = [(n, 0)]
+    while todo:
+        x, d = todo.pop()
+        best = max(best, d)
+        for c in m.children(x):
+            todo.append((c, d + 1))
+    return best
+
+
 def run_enumeration(sess, op):
-    pass
+    if op["op"] == "kill_sweep":
+        kill_sweep(sess, op)
+    else:
+        mux_patterns(sess, op)
+    sess.outcomes.append("ok")
+    sess.interleave.append((op["op"], "ok"))
+
+
+def kill_sweep(sess, op):
+    m = sess.model
+    kw = {"maxiter": 2000}
+    names = list(m.order)
+    phases = _ensure_phases(sess) if op.get("phases", True) else list(m.sys_phases.keys())
+    for n in names:
+        m = sess.model
+        if n not in m.comps:
+            continue
+        k = m.kind(n)
+        spec, group, rail, conf = copy.deepcopy(m.comps[n]), m.groups[n], m.rails[n], copy.deepcopy(m.phase_conf[n])
+        below = m.descendants(n)
+        nontriv = _levels_below(m, n) >= 2 and any(m.kind(d) in LOADS for d in below)
+        kinds_below = tuple(sorted(set(m.kind(d) for d in below)))
+        # ---- kill kind 1: source set to 0 V
+        if k == "Source":
+            dead = copy.deepcopy(spec)
+            dead["p"]["vo"] = 0.0
+            if _edit(sess, {"op": "change_comp", "name": n, "comp": dead, "group": group, "rail": rail}):
+                sess.stats["kill:source0"] += 1
+                sess.stats["fault_fired:kill_source_0V"] += 1
+                _observe(sess, kw, "source0")
+                if nontriv:
+                    sess.nontrivial.add(("kill", "source0", m.depth(n), kinds_below))
+                _restore_comp(sess, n, spec, group, rail, conf)
+        # ---- kill kind 2: inactive in a phase
+        if k in LIST_PHASE_KINDS and phases:
+            for ph in phases[:2]:
+                others = [p for p in phases if p != ph]
+                if _edit(sess, {"op": "set_comp_phases", "name": n, "conf": others}):
+                    sess.stats["kill:sleep"] += 1
+                    sess.stats["fault_fired:kill_inactive_in_phase"] += 1
+                    _observe(sess, dict(kw, phase=ph), "sleep")
+                    if nontriv:
+                        sess.nontrivial.add(("kill", "sleep:" + k, sess.model.depth(n), kinds_below))
+                _edit(sess, {"op": "set_comp_phases", "name": n, "conf": copy.deepcopy(conf) if conf else []})
+        # ---- kill kind 3: regulator driven into drop-out down to 0 V
+        if k == "LinReg":
+            par = m.parents[n][0]
+            from .gen import model_vnom
+
+            vin = abs(model_vnom(m, par))
+            if vin > 0:
+                d = copy.deepcopy(spec)
+                sign = 1 if spec["p"]["vo"] >= 0 else -1
+                d["p"]["vo"] = sign * round(vin * 3.0 + 1.0, 4)
+                d["p"]["vdrop"] = round(vin * 1.5 + 0.1, 4)
+                if _edit(sess, {"op": "change_comp", "name": n, "comp": d, "group": group, "rail": rail}):
+                    sess.stats["kill:dropout"] += 1
+                    sess.stats["fault_fired:kill_dropout_to_0V"] += 1
+                    _observe(sess, kw, "dropout")
+                    if nontriv:
+                        sess.nontrivial.add(("kill", "dropout", m.depth(n), kinds_below))
+                    _restore_comp(sess, n, spec, group, rail, conf)
+
+
+def mux_patterns(sess, op):
+    """Visit all 2^n live/dead patterns of the mux inputs."""
+    m = sess.model
+    mux = m.mux()
+    if mux is None:
+        return
+    inputs = list(m.parents[mux])
+    n = len(inputs)
+    phases = _ensure_phases(sess)
+    ph = phases[0]
+    others = [p for p in phases if p != ph]
+    kw = {"maxiter": 2000, "phase": ph}
+    srcs_of = {i: [a for a in ([i] + sess.model.ancestors(i)) if sess.model.kind(a) == "Source"] for i in inputs}
+    if len(set(tuple(v) for v in srcs_of.values())) > 1:
+        sess.stats["mux_inputs_diff_sources"] += 1
+    if isinstance(sess.model.comps[mux]["p"].get("rs"), list):
+        sess.stats["mux_list_rs"] += 1
+    for pattern in itertools.product([True, False], repeat=n):
+        m = sess.model
+        undo = []
+        feasible = True
+        for inp, live in zip(inputs, pattern):
+            if live:
+                continue
+            k = m.kind(inp)
+            spec, group, rail, conf = copy.deepcopy(m.comps[inp]), m.groups[inp], m.rails[inp], copy.deepcopy(m.phase_conf[inp])
+            if k in LIST_PHASE_KINDS and k != "Source":
+                if _edit(sess, {"op": "set_comp_phases", "name": inp, "conf": others}):
+                    undo.append(("conf", inp, conf))
+                    sess.stats["fault_fired:mux_input_inactive"] += 1
+                    continue
+            if k == "Source":
+                # alternate between the two ways a source can be dead
+                if (inputs.index(inp) + sum(pattern)) % 2 == 0:
+                    dead = copy.deepcopy(spec)
+                    dead["p"]["vo"] = 0.0
+                    if _edit(sess, {"op": "change_comp", "name": inp, "comp": dead, "group": group, "rail": rail}):
+                        undo.append(("comp", inp, spec, group, rail, conf))
+                        sess.stats["fault_fired:mux_input_source_0V"] += 1
+                        continue
+                else:
+                    if _edit(sess, {"op": "set_comp_phases", "name": inp, "conf": others}):
+                        undo.append(("conf", inp, conf))
+                        sess.stats["fault_fired:mux_input_source_inactive"] += 1
+                        continue
+            # a passive input (loss element / rectifier): kill what feeds it,
+            # provided that does not also kill an input that must stay live
+            up = None
+            for a in m.ancestors(inp):
+                if m.kind(a) in LIST_PHASE_KINDS:
+                    reach = set(m.descendants(a)) | {a}
+                    if not any(l and (i2 in reach) for i2, l in zip(inputs, pattern)):
+                        up = a
+                        break
+            if up is None:
+                feasible = False
+                break
+            c2 = copy.deepcopy(m.phase_conf[up])
+            if _edit(sess, {"op": "set_comp_phases", "name": up, "conf": others}):
+                undo.append(("conf", up, c2))
+                sess.stats["fault_fired:mux_input_upstream_inactive"] += 1
+            else:
+                feasible = False
+                break
+        if feasible:
+            sess.stats["mux_patterns_visited"] += 1
+            _observe(sess, kw, "pattern")
+            sel = next((i for i, l in enumerate(pattern) if l), -1)
+            if sel >= 1:
+                sess.stats["mux_selected>=1"] += 1
+            if sel < 0:
+                sess.stats["mux_all_dead"] += 1
+            kinds = tuple(sess.model.kind(i) for i in inputs)
+            if sel >= 1 or len(set(tuple(v) for v in srcs_of.values())) > 1 or isinstance(sess.model.comps[mux]["p"].get("rs"), list):
+                sess.nontrivial.add(("muxpat", n, pattern, sel, kinds))
+        else:
+            sess.stats["mux_patterns_infeasible"] += 1
+        for u in reversed(undo):
+            if u[0] == "conf":
+                _edit(sess, {"op": "set_comp_phases", "name": u[1], "conf": copy.deepcopy(u[2]) if u[2] else []})
+            else:
+                _restore_comp(sess, u[1], u[2], u[3], u[4], u[5])
